@@ -130,7 +130,9 @@ def _m_proj_dedup(pid, v, context):
         return v.get("kind") == "rows" and ex is not None and ex[0] == "dedup" and nw[0] == "proj"
     if pid == "C03":
         fn = context.get("counterfactual") if isinstance(context, dict) else getattr(context, "counterfactual", None)
-        return v.get("kind") in ("rows", "rows-vs-plain") and bool(fn and fn("projection_past_deduplication"))
+        return v.get("kind") in ("rows", "rows-vs-plain", "rows-on-processed-base") and bool(
+            fn and fn("projection_past_deduplication")
+        )
     return False
 
 
@@ -306,7 +308,7 @@ def distinct_under_hidden_sort_key(rel) -> bool:
 @matcher("backtracked_dedup_under_hidden_sort_key")
 def _m_dedup_hidden_sort(pid, v, context):
     rel = _rel_of(context)
-    if rel is None or v.get("kind") not in ("rows", "rows-vs-plain") or not v.get("order_only"):
+    if rel is None or v.get("kind") not in ("rows", "rows-vs-plain", "rows-on-processed-base") or not v.get("order_only"):
         return False
     parent = getattr(context, "parent_rel", None)
     # cause: the call created the DISTINCT-under-hidden-sort-key statement (it was not there before)
